@@ -250,3 +250,75 @@ def runC01 (t : Tier) : Emit Unit := do
     emit "C01" (muxDemuxCase h "mux-demux")
 
 end Astits.DriverMux
+
+namespace Astits.DriverMux
+open Spec
+
+/-- number of `Write` calls the muxer issues for one packet given as bytes: one per byte, except the
+transport private data and the payload, which are written with one call each -/
+def writeCallsOfPacket (bs : Bytes) : Nat :=
+  match (parsePacket none).val bs with
+  | .ok p =>
+    let priv := match p.adaptationField with | some a => a.transportPrivateData.length | none => 0
+    let pl := p.payload.length
+    188 - priv - pl + (if priv > 0 then 1 else 0) + (if pl > 0 then 1 else 0)
+  | _ => 188
+
+def chunk188 : Nat → Bytes → List Bytes
+  | 0, _ => []
+  | fuel + 1, bs => if bs.isEmpty then [] else bs.take 188 :: chunk188 fuel (bs.drop 188)
+
+/-- Write calls of one muxer call: 2 for a table pair (one Write per 188-byte table), per-byte for packets -/
+def writeCallsOf (m : Mux) (op : MuxOp) : Nat :=
+  match op with
+  | .tables => (match m.writeTables with | (.ok cs, _) => cs.length | _ => 0)
+  | .data d =>
+    let (o, _, _) := m.writeData d
+    let tabs := (o.chunks.filter fun c => c.length == 188 && (c.getD 1 0 % 32 * 256 + c.getD 2 0 == 0 || c.getD 1 0 % 32 * 256 + c.getD 2 0 == 0x1000)).length
+    -- table chunks come first (if any): one Write each; the rest are PES packets
+    let nt := if (m.retransmitTables ((d.adaptationField.map (·.randomAccessIndicator)).getD false && d.pid == m.pcrPID)).1.isOk
+              then ((m.retransmitTables ((d.adaptationField.map (·.randomAccessIndicator)).getD false && d.pid == m.pcrPID)).1 |> fun r => match r with | .ok cs => cs.length | _ => 0) else 0
+    let _ := tabs
+    nt + ((o.chunks.drop nt).map writeCallsOfPacket).sum
+  | .packet p => (match Astits.writePacket p 188 with | .ok bs => writeCallsOfPacket bs | _ => 0)
+  | _ => 0
+
+def faultCase (h : History) (k : Nat) (once : Bool) (expect : String) (tag : String) : Case :=
+  { op := "mux", args := [("period", jnat h.period), ("ops", jarr (h.ops.map opJson)), ("view", jstr "fault"),
+                          ("failAtLast", jnat k), ("once", jbool once)],
+    model := expect, spec := some expect, tag := tag }
+
+def runC18w (t : Tier) : Emit Unit := do
+  for i in [0:(if t.quick then 6 else 40)] do
+    let period ← liftGen genPeriod
+    let h0 ← liftGen (genHistory 6 period true)
+    -- the model state after the prefix
+    let m := h0.ops.foldl (fun m op => (modelStep m op).2) (newMux period)
+    let pids := m.streams.map (·.elementaryPID)
+    if pids.isEmpty then continue
+    let pid ← liftGen (pick pids)
+    -- final operations: WriteTables, WriteData whose last packet needs 0 / 1 / 2 / many stuffing bytes, WritePacket
+    let mut finals : List (MuxOp × String) := [(.tables, "tables")]
+    for extra in [0, 1, 2, 40] do
+      let d ← liftGen (genData pid (i % 2 = 0) 20)
+      let hdr := 6 + calcPESOptionalHeaderLength d.pes.header.optionalHeader
+      let afLen := match d.adaptationField with | some a => 1 + (afSize a).toNat | none => 0
+      -- payload such that the last packet has `extra` free bytes
+      let n := (184 - hdr - afLen) + 184 - extra
+      let pl ← liftGen (randBytes n)
+      finals := finals ++ [(.data { d with pes := { d.pes with data := pl } }, s!"data-stuff{extra}")]
+    let p ← liftGen genPacket
+    finals := finals ++ [(.packet p, "packet")]
+    for (fop, name) in finals do
+      let w := writeCallsOf m fop
+      let h : History := { period := period, ops := h0.ops ++ [fop] }
+      let kind := match fop with | .tables => "tables" | .data _ => "data" | _ => "packet"
+      let stride := if t.quick then 23 else 3
+      for k in [0:w] do
+        if k % stride != 0 && k + 3 < w && k > 8 then continue
+        let once ← liftGen randBool
+        emit "C18" (faultCase h k once s!"{kind}:err=io:nle=true" ("writer-fault-" ++ name))
+      -- a fault armed beyond the last Write of the call is not hit: the call succeeds
+      emit "C18" (faultCase h (w + 5) true s!"{kind}:err=none:nle=true" ("writer-nofault-" ++ name))
+
+end Astits.DriverMux
